@@ -84,3 +84,56 @@ def observe(fx, st, name, args=None, nparams=None):
         return None
     out = reader(fx).run(fs[0], args=args, state=st.copy())
     return [(s.ret, s) for s in out], fs[0]
+
+
+def check_forwarding(fx, R, rule):
+    """Every way into a SmartRotation3D besides init(x, y, z) - the constructors with arguments and the vector overload of init() - must hand (x, y, z) on IN ORDER: the three scalar parameters, or
+    components 0, 1, 2 of the one vector parameter.  (E-SIB: the model of init(x, y, z) is what the other rules judge; an entry that permutes or repeats an argument builds another rotation.)"""
+    from ..tree import sx
+    from .C20 import deep_unwrap
+    from .C14 import stmts_sx
+    n = 0
+    for g in sorted((g for g in fx.functions.values() if g.get('cls') == 'romea::core::SmartRotation3D' and (g.get('ctor') or g['name'] == 'init') and g.get('body') is not None
+                     and g.get('params') and not g.get('copyctor') and not g.get('implicit')), key=lambda g: g['q'] + g['sig']):
+        pn = [p_['name'] for p_ in g['params']]
+        if g['name'] == 'init' and len(pn) == 3:
+            continue
+        if len(pn) == 1 and 'SmartRotation3D' in (g['params'][0].get('t') or {}).get('s', ''):
+            continue                      # copy / move
+        inst = 'SmartRotation3D::%s(%s)' % ('SmartRotation3D' if g.get('ctor') else 'init', ', '.join(pn))
+        loc = fx.rel(g['loc'])
+        R.used(g)
+        calls = [deep_unwrap(sx(i_['e'])) for i_ in g.get('inits', []) if i_.get('delegating')]
+        calls = [c_[1:] for c_ in calls if isinstance(c_, tuple) and len(c_) == 4]
+        for s_ in stmts_sx(g):
+            if s_[0] == 'expr' and isinstance(s_[1], tuple) and s_[1][0] == '.init' and s_[1][1] == 'this' and len(s_[1]) == 5:
+                calls.append(s_[1][2:])
+        if len(calls) != 1:
+            R.undecided(rule, inst + ':forwarding', 'not a single forwarding call of three angles (%d found)' % len(calls))
+            continue
+        args = calls[0]
+        if len(pn) == 3:
+            want = tuple(pn)
+            show = lambda a: str(a)
+        elif len(pn) == 1:
+            want = tuple(('[]', pn[0], k) for k in range(3))
+            alt = tuple(('()', pn[0], k) for k in range(3))
+            if all(isinstance(a, tuple) and a[0] == '()' for a in args):
+                want = alt
+            xyz = {'.x': 0, '.y': 1, '.z': 2}
+            args = tuple(('[]', pn[0], xyz[a[0]]) if isinstance(a, tuple) and len(a) == 2 and a[0] in xyz and a[1] == pn[0] else a for a in args)
+            show = lambda a: '%s[%s]' % (a[1], a[2]) if isinstance(a, tuple) and len(a) == 3 else str(a)
+        else:
+            R.undecided(rule, inst + ':forwarding', 'parameter list not enumerated')
+            continue
+        n += 1
+        if tuple(args) == want:
+            R.holds(rule, inst + ':forwarding', 'hands its angles on in order (x, y, z)', loc, 'E-SIB')
+        elif all(a in want or (isinstance(a, tuple) and len(a) == 3 and a[0] in ('[]', '()') and a[1] == pn[0] and isinstance(a[2], int)) for a in args):
+            R.violated(rule, 'SmartRotation3D:%s:forwarding' % ('constructor' if g.get('ctor') else 'init') + ('(vector)' if len(pn) == 1 else ''), '%s forwards (%s) as the angles around (x, y, z); in order they are (%s): '
+                       'the rotation built is that of other angles%s' % (inst, ', '.join(show(a) for a in args), ', '.join(show(a) for a in want),
+                                                                          ' (a three-component vector has no component %s)' % [a[2] for a in args if isinstance(a, tuple) and len(a) == 3 and isinstance(a[2], int) and a[2] > 2][0]
+                                                                          if any(isinstance(a, tuple) and len(a) == 3 and isinstance(a[2], int) and a[2] > 2 for a in args) else ''), loc, 'E-SIB')
+        else:
+            R.undecided(rule, inst + ':forwarding', 'forwarded arguments %s are not plain parameters / components' % (args,))
+    return n
